@@ -90,6 +90,13 @@ class Interp:
             return Opaque('func:' + r[1].qualname)
         if r[0] == 'global':
             return Opaque('global:' + name)
+        # a variable of an enclosing function (a flag computed once per call of the outer function and read by the callback):
+        # its value is not known here, so every use sees an arbitrary value (both branches of a test on it are followed)
+        par = self.func.parent
+        while par is not None:
+            if name in self.prog.local_names(par):
+                return Opaque('closure:' + name)
+            par = par.parent
         raise Unsupported(ast.Name(id=name, ctx=ast.Load()), 'unbound name')
 
     # ------------------------------------------------------------------ statements
